@@ -306,6 +306,27 @@ def run(prop, tier_):
         modes = {x.get("mode") for x in c["meta"]["calls"]}
         if len(modes) > 1:
             c["mkmode"] = -1
+    if prop == "C13":
+        # wide and deep subtrees: directory listings that need several getdents batches, recursion 40 levels deep, and a
+        # sibling that must survive (the iteration restarts until a fresh listing is empty; nothing may be skipped)
+        wide = [N(5, R, "w", "dir"), N(6, R, "keep", "dir"), N(7, 6, "k", "file")]
+        nid = 8
+        for i in range(700):
+            wide.append(N(nid, 5, "file-with-a-rather-long-name-%04d" % i, "file")); nid += 1
+        for i in range(40):
+            wide.append(N(nid, 5, "sub%02d" % i, "dir")); nid += 1
+            wide.append(N(nid, nid - 1, "inner", "file")); nid += 1
+            wide.append(N(nid, nid - 2, "l_keep", "lnk", "../../keep")); nid += 1
+        deep = [N(5, R, "d", "dir"), N(6, R, "keep", "file")]
+        par, nid = 5, 7
+        for i in range(40):
+            deep.append(N(nid, par, "n", "dir")); deep.append(N(nid + 1, par, "f%d" % i, "file")); par = nid; nid += 2
+        for tname, tree, path in (("wide", wide, "w"), ("deep", deep, "d"), ("deep", deep, "d/n/n/n")):
+            for bname, feat in rootops_static.FEATS:
+                for api in ("rust", "c"):
+                    call = dict(op="remove_all", path=path, api=api)
+                    scases.append(dict(id="big|%s|%s|%s|%s" % (tname, path, bname, api), tree=tree, feat=feat, trace=True, raw=False, calls=[call], post=True,
+                                       meta=dict(kind="static-big", tree=tname, call=call, backend=bname, expect=dict(ok=True), model_post=True)))
     acases = []
     if prop == "C13":
         # "never follows links" under an attacker: every placement of the priority attacker actions
